@@ -658,6 +658,12 @@ func (o *orbitDB) DetermineAddress(ctx context.Context, name string, storeType s
 		options = &DetermineAddressOptions{}
 	}
 
+	// (neither the options nor the access controller parameters of the caller
+	// are written into: the name and the defaults decided for this database
+	// must not reach the next one made from the same parameters)
+	optionsCopy := *options
+	options = &optionsCopy
+
 	if options.OnlyHash == nil {
 		t := true
 		options.OnlyHash = &t
@@ -673,6 +679,8 @@ func (o *orbitDB) DetermineAddress(ctx context.Context, name string, storeType s
 
 	if options.AccessController == nil {
 		options.AccessController = accesscontroller.NewEmptyManifestParams()
+	} else {
+		options.AccessController = accesscontroller.CloneManifestParams(options.AccessController)
 	}
 
 	if options.AccessController.GetName() == "" {
